@@ -28,6 +28,9 @@ let fnv l = List.fold_left (fun h b -> ((h lxor (int_of_n_sat b land 255)) * 167
 let gstr tag j len =
   let pre = Printf.sprintf "%c%d_" tag j in
   String.init (max len 0) (fun m -> if m < String.length pre then pre.[m] else Char.chr (97 + ((j * 7 + m * 3) mod 26)))
+let kname j b len =
+  let g = gstr 'k' b len in
+  String.mapi (fun m c -> if m >= 63 then Char.chr (65 + ((j + m) mod 26)) else c) g
 let bytes_of_string s = List.init (String.length s) (fun i -> n_of_int (Char.code s.[i]))
 let ibyte seed m = (seed * 31 + m * 7 + (m lsr 8) * 13 + 1) land 0xff
 
@@ -49,7 +52,8 @@ let parse_case line =
     (match ints hd with
      | [pages; mode; ns] ->
        let keys = List.map (fun w -> match List.map int_of_string (String.split_on_char ':' w) with
-           | [a; b; c; d] -> (a, b, c, d) | _ -> failwith "bad key") (words dict) in
+           | [a; b; c; d] -> (a, b, c, d, -1) | [a; b; c; d; e] -> (a, b, c, d, e) | _ -> failwith "bad key") (words dict) in
+       let keys = List.mapi (fun j (a, b, c, d, e) -> (a, b, c, d, if e < 0 then j else e)) keys in
        let events = List.filter_map (fun t -> match words t with
            | [] -> None
            | [sid; key; ufl; tp; id; inf] ->
@@ -60,15 +64,12 @@ let parse_case line =
      | _ -> failwith "bad head")
   | _ -> failwith "bad case"
 
-let idx = ref (-1)
+type loaded = Bad of string | Loaded of kent list * (kent list -> string)
 
-let () =
-  let casefile = Sys.argv.(1) in
-  iter_cases casefile (fun line ->
-    incr idx;
-    let path = Printf.sprintf "%s.d/c%d-0.prof" casefile !idx in
+(* one file: its own dictionary now, the rest once the merged dictionary of all the files opened together is known *)
+let load path line : loaded =
     match (try Some (parse_case line) with _ -> None) with
-    | None -> "<bad case>"
+    | None -> Bad "<bad case>"
     | Some (_pages, _mode, _ns, keys, _ninfos, events) ->
     let infos_of sid =
       let ni = (try List.nth _ninfos sid with _ -> 0) in
@@ -77,12 +78,12 @@ let () =
           (bytes_of_string (gstr 'i' (sid * 16 + m) (4 + (sid + m) mod 9)),
            bytes_of_string (gstr 'v' (sid * 16 + m) (3 + (sid * 5 + m * 11) mod 40))))) in
     match read_file path with
-    | None -> "<no profile file>"
+    | None -> Bad "<no profile file>"
     | Some s ->
       if Sys.getenv_opt "VERIF_KEEP" = None then (try Sys.remove path with _ -> ());
       let flen = String.length s in
-      if flen < 224 then "<file too small>" else
-      if String.sub s 8 23 <> "#PARSEC BINARY PROFILE " then "err=-3 <unreadable> | mono=1 rc=0 enc=ok" else
+      if flen < 224 then Bad "<file too small>" else
+      if String.sub s 8 23 <> "#PARSEC BINARY PROFILE " then Bad "err=-3 <unreadable> | mono=1 rc=0 enc=ok" else
       let bufsize = get s 48 4 in
       let dn = get s 180 4 and doff = get s 184 7 and tn = get s 212 4 and toff = get s 216 7 in
       let file off =
@@ -90,9 +91,12 @@ let () =
         if o < 0 || o >= flen || bufsize <= 0 then None
         else Some (List.init bufsize (fun i -> if o + i < flen then n_of_int (Char.code s.[o + i]) else N0)) in
       let nbuf = flen / (max bufsize 1) + 2 in
-      (match decode (nat_of_int nbuf) file (n_of_int doff) (nat_of_int dn) (n_of_int toff) (nat_of_int tn) with
-       | None -> "err=-7 <unreadable> | mono=1 rc=0 enc=ok"
-       | Some (dkeys, ths) ->
+      (match decode_keys file (n_of_int doff) (nat_of_int dn) with
+       | None -> Bad "err=-7 <unreadable> | mono=1 rc=0 enc=ok"
+       | Some lkeys -> Loaded (lkeys, fun dkeys ->
+       match decode_rest (nat_of_int nbuf) file (n_of_int toff) (nat_of_int tn) dkeys with
+       | None -> "err=-8 <unreadable> | mono=1 rc=0 enc=ok"
+       | Some ths ->
          let b = Buffer.create 4096 in
          Buffer.add_string b "err=0 D";
          List.iter (fun k ->
@@ -116,9 +120,9 @@ let () =
                  if N.ltb e.e_ts !last then mono := false;
                  last := e.e_ts) evs) ths;
          (* --- the modelled writer against the bytes of the file --- *)
-         let il_case = N0 :: List.map (fun (_, _, _, il) -> n_of_int il) keys in
+         let il_case = N0 :: List.map (fun (_, _, _, il, _) -> n_of_int il) keys in
          let ilen_case key = let bk = key / 2 in if bk >= 1 && bk <= List.length keys then
-             (let (_, _, _, il) = List.nth keys (bk - 1) in il) else 0 in
+             (let (_, _, _, il, _) = List.nth keys (bk - 1) in il) else 0 in
          let avail = n_of_int (bufsize - 25) in
          let diff = ref "" in
          let note m = if !diff = "" then diff := m in
@@ -187,7 +191,7 @@ let () =
                | _ -> note (Printf.sprintf "DIFF:%s:buf%d" what j)) out in
          let kent_of n a c il = { k_name = bytes_of_string n; k_attr = bytes_of_string a; k_conv = bytes_of_string c; k_ilen = n_of_int il } in
          let dict_case = kent_of "N/A" "fill:#000000" "" 0
-                         :: List.mapi (fun j (nl, al, cl, il) -> kent_of (gstr 'k' j nl) (gstr 'a' j al) (gstr 'c' j cl) il) keys in
+                         :: List.mapi (fun j (nl, al, cl, il, b) -> kent_of (kname j b nl) (gstr 'a' b al) (gstr 'c' b cl) il) keys in
          compare_table "dict" (n_of_int doff) 2 (List.map ser_key dict_case);
          begin
            (* threads in stream_init order, those without events left out; infos are kept in a LIFO list *)
@@ -211,3 +215,44 @@ let () =
          Buffer.add_string b (Printf.sprintf " | mono=%d rc=%d enc=%s" (if !mono then 1 else 0) rc
                                 (if !diff = "" then "ok" else !diff));
          Buffer.contents b))
+
+let split2 s =            (* on the two-character separator "||" *)
+  let n = String.length s in
+  let rec go i start acc =
+    if i + 1 >= n then List.rev (String.sub s start (n - start) :: acc)
+    else if s.[i] = '|' && s.[i + 1] = '|' then go (i + 2) (i + 2) (String.sub s start (i - start) :: acc)
+    else go (i + 1) start acc in
+  go 0 0 []
+
+let idx = ref (-1)
+let () =
+  let casefile = Sys.argv.(1) in
+  iter_cases casefile (fun line ->
+    incr idx;
+    let base = Printf.sprintf "%s.d/c%d" casefile !idx in
+    (* files opened together, in order: (rank, case of that rank) *)
+    let multi = String.length line > 0 && line.[0] = 'M' in
+    let opened =
+      if not multi then [(0, line)] else
+        match split2 line with
+        | hd :: subs ->
+          let subs = Array.of_list subs in
+          let order = (match words hd with [_; o] -> o | _ -> "") in
+          List.filter_map (fun c -> let r = Char.code c - 48 in
+                            if r >= 0 && r < Array.length subs then Some (r, subs.(r)) else None)
+            (List.init (String.length order) (String.get order))
+        | [] -> [] in
+    let loaded = List.map (fun (r, sub) -> load (Printf.sprintf "%s-%d.prof" base r) sub) opened in
+    if multi && Sys.getenv_opt "VERIF_KEEP" = None then
+      List.iter (fun r -> try Sys.remove (Printf.sprintf "%s-%d.prof" base r) with _ -> ()) [0; 1; 2];
+    (* read_dictionary: one merged dictionary for all the files, a map per file *)
+    let locals = List.filter_map (function Loaded (lk, _) -> Some lk | Bad _ -> None) loaded in
+    let (merged, maps) = merge_files [] locals in
+    let maps = ref maps in
+    let obs = List.map (function
+        | Bad m -> m
+        | Loaded (_, k) ->
+          (match !maps with
+           | mp :: r -> maps := r; k (presented merged mp)
+           | [] -> "<model: no map>")) loaded in
+    if multi then "M || " ^ String.concat " || " obs else String.concat "" obs)
